@@ -475,7 +475,10 @@ def make_call_patch(t: Target, case: dict, cblog: list) -> CallPatch:
         kwargs = dict(clobbers_flags=bool(case["flags"]), align_stack=bool(case["align"]),
                       preserve_caller_saved_registers=bool(case["pcs"]),
                       scratch_registers=int(case["scratch"]))
-    return CallPatch(t.callee, args, conv, **kwargs)
+    # `args` is declared Iterable: a tuple, a list or a one-shot iterator (argshape 0 / 1 / 2)
+    shape = int(case.get("argshape", 0))
+    given: Any = tuple(args) if shape == 0 else list(args) if shape == 1 else iter(list(args))
+    return CallPatch(t.callee, given, conv, **kwargs)
 
 
 def empty_obs() -> Dict[str, Any]:
@@ -623,12 +626,107 @@ def run_rewrite(t: Target, case: dict, patch, constraints, tr: dict, cblog: list
     return out
 
 
+class CallExtPatch(Patch):
+    """History step "addcall": a plain patch that calls an external function (it turns
+    the function it is inserted into a non-leaf in the CFG)."""
+
+    def get_asm(self, insertion_context):
+        isa = insertion_context.module.isa
+        if isa in (gtirb.Module.ISA.X64, gtirb.Module.ISA.IA32):
+            return f"call {CALLEE}"
+        if isa == gtirb.Module.ISA.ARM64:
+            return f"bl {CALLEE}"
+        return f"jal {CALLEE}\nnop"
+
+
+def run_contexts(t: Target, case: dict, patch, constraints, tr: dict, cblog: list) -> List[dict]:
+    """A history of several RewritingContexts over ONE module (mode "ctxs"): every
+    context is given the functions `known` to it (rebuilt from the aux tables, as a
+    driver would) and performs 1-2 steps: "patch" inserts the constrained patch at
+    the start of function block blk (judged site), "addcall" inserts a call at the
+    end of that block.  The code inserted by a "patch" step is the difference of
+    the block's byte interval before / after that context's apply()."""
+    m = t.module
+    m.aux_data["functionEntries"] = gtirb.AuxData(
+        {f.uuid: {b for b in f.get_entry_blocks()} for f in t.functions}, "mapping<UUID,set<UUID>>")
+    m.aux_data["functionBlocks"] = gtirb.AuxData(
+        {f.uuid: {b for b in f.get_all_blocks()} for f in t.functions}, "mapping<UUID,set<UUID>>")
+    m.aux_data["functionNames"] = gtirb.AuxData(
+        {f.uuid: t.blocksym[id(next(iter(f.get_entry_blocks())))] for f in t.functions}, "mapping<UUID,UUID>")
+    uuid_of = {i: f.uuid for i, f in enumerate(t.functions)}
+    calls: List[Tuple[Any, Any, List[Tuple[int, Any]]]] = []
+    orig = patch.get_asm
+
+    def spy(ctx):
+        del cblog[:]
+        text = None
+        try:
+            text = orig(ctx)
+            return text
+        finally:
+            calls.append((ctx, text, list(cblog)))
+
+    patch.get_asm = spy
+    out = []
+    for ci, c in enumerate(case["hist"]):
+        tr["stage"] = f"context{ci + 1}"
+        fns = gtirb_functions.Function.build_functions(m)
+        known = [f for f in fns if any(f.uuid == uuid_of[k] for k in c["known"])]
+        rc = RewritingContext(m, known)
+        judged = []
+        for st in c["ops"]:
+            blk = t.blocks[st["blk"]]
+            if st["op"] == "patch":
+                rc.insert_at(blk, 0, patch)
+                judged.append(st["blk"])
+            else:
+                rc.insert_at(blk, blk.size, CallExtPatch(Constraints()))
+        before = {b: bytes(t.intervals[b].contents) for b in judged}
+        ncalls = len(calls)
+        rc.apply()
+        for k, b in enumerate(judged):
+            obs = empty_obs()
+            out.append(obs)
+            if len(calls) - ncalls != len(judged):
+                raise OutOfDomain(f"{len(calls) - ncalls} get_asm calls for {len(judged)} patch steps")
+            ctx, body_text, cbs = calls[ncalls + k]
+            adj = ctx.stack_adjustment
+            obs["adjknown"] = adj is not None
+            obs["adj"] = int(adj) if adj is not None else 0
+            obs["scratch"] = [r.name for r in ctx.scratch_registers]
+            obs["cb"] = cb_records(cbs, ctx)
+            bi = t.intervals[b]
+            after = bytes(bi.contents)
+            n = len(after) - len(before[b])
+            # (an "addcall" of the same context sits at the end of the block)
+            tailcall = sum(1 for st in c["ops"] if st["op"] == "addcall" and st["blk"] == b)
+            if tailcall:
+                raise OutOfDomain("patch and addcall on one block in one context")
+            if n <= 0 or after[n:] != before[b]:
+                raise OutOfDomain("inserted code not found at the start of the block")
+            data = after[:n]
+            sx = {}
+            for o, e in bi.symbolic_expressions.items():
+                if o < n:
+                    names = [x.name for x in e.symbols]
+                    sx[o] = names[0] if len(names) == 1 else "?"
+            tr["stage"] = "decode"
+            text = split_and_decode(t, data, sx, body_text, constraints.x86_syntax, obs)
+            if os.environ.get("VERIF_DEBUG"):
+                tr["text"] = tr["text"] + text
+    return out
+
+
 def run_case(case: dict) -> dict:
     kind = case["kind"]
     mode = case.get("mode", "single")
-    rewrite = mode in ("rewrite", "loop", "blocks", "funcs")
+    rewrite = mode in ("rewrite", "loop", "blocks", "funcs", "ctxs")
     # the rewriter modifies the module: a fresh one for such a case
-    if rewrite and kind == "c16":
+    if mode == "ctxs":
+        # one function per block; orig[i]: the function contains a call from the start
+        t = Target(case["abi"], nblocks=len(case["orig"]), data=False,
+                   funcs=[(i, bool(oc)) for i, oc in enumerate(case["orig"])])
+    elif rewrite and kind == "c16":
         # site blocks only; a possibly-leaf site is a block outside any function
         # (loop) or a function without calls, the others are functions with a call
         sites = case["sites"]
@@ -656,7 +754,9 @@ def run_case(case: dict) -> dict:
             constraints = constraints_of(case)
             patch = NopPatch(constraints) if rewrite else None
         tr["declclob"] = sorted({t.canon(r) for r in constraints.clobbers_registers})
-        if rewrite:
+        if mode == "ctxs":
+            obs = run_contexts(t, case, patch, constraints, tr, cblog)
+        elif rewrite:
             obs = run_rewrite(t, case, patch, constraints, tr, cblog)
         else:
             obs = run_direct(t, case, patch, constraints, tr, cblog)
